@@ -396,6 +396,10 @@ pub fn oracle(name: &str, rng: &mut Rng, n: usize, tier: &str) -> OracleReport {
             (call(code, items), T::nil())
         } else if (name == "hide" && i % 5 == 3) || (name == "repr" && i % 8 == 4) {
             exact_guard(rng)
+        } else if name == "repr" && i % 8 == 6 {
+            // point-sized atoms (valid, infinity, invalid): the history arm feeds them and their sign-flipped
+            // twins to the point operators first
+            bls_point_program(rng)
         } else if name == "repr" && i % 4 == 2 {
             progs::random_path_program(rng)
         } else if name == "runtime" && i % 4 == 1 {
@@ -818,6 +822,54 @@ fn run_with_history(rng: &mut Rng, flags: u32, prog: &T, env: &T) -> Result<(u64
         let e = trees::build(&mut a, env).unwrap();
         let fl = if k == 1 { ClvmFlags::from_bits_truncate(random_flags(rng)) } else { f };
         let _ = std::panic::catch_unwind(std::panic::AssertUnwindSafe(|| run_program(&mut a, &ChiaDialect::new(fl), p, e, if k == 3 { 500 } else { 0 })));
+    }
+    // earlier runs (failed and successful, strict and RELAXED_BLS) that handle the point-sized atoms of the
+    // program and their sign-flipped twins with the point operators: whatever they leave in the
+    // validated-point cache must be valid points
+    {
+        fn point_atoms(t: &T, out: &mut Vec<Vec<u8>>) {
+            match t {
+                T::Atom(b) => {
+                    if b.len() == 48 || b.len() == 96 {
+                        out.push(b.clone());
+                    }
+                }
+                T::Pair(l, r) => {
+                    point_atoms(l, out);
+                    point_atoms(r, out);
+                }
+            }
+        }
+        let mut blobs = vec![];
+        point_atoms(prog, &mut blobs);
+        point_atoms(env, &mut blobs);
+        blobs.truncate(4);
+        // a successful run clears the caches at its end, a failed one does not: the runs that may succeed come
+        // first, the raising ones (which leave their cache entries behind) last
+        for raise in [false, true] {
+            for b in &blobs {
+                let mut twin = b.clone();
+                twin[0] ^= 0x20;
+                for blob in [b.clone(), twin] {
+                    let g1 = blob.len() == 48;
+                    let ops: &[u8] = if g1 { &[51, 29, 49, 50] } else { &[55, 52, 53, 54] };
+                    for &op in ops {
+                        let args = match op {
+                            50 | 54 => vec![quote(T::Atom(blob.clone())), quote(int(rng.range(-3, 9) as i128))],
+                            _ => vec![quote(T::Atom(blob.clone()))],
+                        };
+                        let body = call(op, args);
+                        let q = if raise { call(8, vec![body.clone()]) } else { body.clone() };
+                        for fl in [RELAXED_BLS, 0u32] {
+                            let fl = ClvmFlags::from_bits_truncate(fl | if rng.chance(1, 4) { NEW_COST_MODEL } else { 0 });
+                            let p = trees::build(&mut a, &q).unwrap();
+                            let e = a.nil();
+                            let _ = std::panic::catch_unwind(std::panic::AssertUnwindSafe(|| run_program(&mut a, &ChiaDialect::new(fl), p, e, 0)));
+                        }
+                    }
+                }
+            }
+        }
     }
     let mut it = "".chars();
     let p = crate::run::build_tagged(&mut a, prog, &mut it);
